@@ -17,7 +17,8 @@ RULE = ("join schedules of Hasher::update_with_join / blake3_hasher_update_tbb: 
         "whose updates perform k = 1..5 joins get ALL 3^k scripts (k computed by the generator and checked against the "
         "join count the hook reports); inputs up to 2 MiB get random scripts.  Every run is compared with the model "
         "(which defines us/uy/ut as plain update) on the observations count / finalize / xof / further update / "
-        "finalize after it; the C runs additionally compare the raw hasher struct with a serially updated twin (cmp).  "
+        "finalize after it; multi-step histories in which every update goes through update_rayon / a random script, or "
+        "starts with update_mmap_rayon / update_mmap on a real file and then continues; the C runs additionally compare the raw hasher struct with a serially updated twin (cmp).  "
         "Real update_rayon (uy) runs under rayon pools of 1, 2, 3, 8, 16 threads.  Thorough: the C seam under TSan.  "
         "Non-trivial = distinct (input, script) whose script contains a right-first or two-thread choice on an update "
         "with at least one join.")
@@ -291,9 +292,19 @@ def correspondence(ctx):
                 first = CHUNK * hrng.choice([2, 4, 8, d, 2 * d, 4 * d, 64])
                 ops = ["u:0:" + bspec(hrng, first), "u:0:" + bspec(hrng, hrng.choice([1, 63, 64, 65, 1000, 1024])),
                        "c:0", "f:0", "x:0:131", "u:0:" + bspec(hrng, hrng.choice([0, 1, 1024, 3000])), "f:0"]
+            if j % 4 == 2:     # update_mmap_rayon FIRST (mapped: >= 16 KiB; whole chunks with several one-bits in the
+                               # chunk count, and general lengths), then MORE input, then observe
+                n1 = hrng.choice([100 * CHUNK, 28 * CHUNK, 52 * CHUNK, 16 * CHUNK, 17 * CHUNK + 5, 97 * CHUNK, 4 * CHUNK])
+                ops = ["u:0:" + bspec(hrng, n1), "c:0", "u:0:" + bspec(hrng, hrng.choice([1, 1024, 3000, 70 * CHUNK])),
+                       "c:0", "f:0", "x:0:70", "u:0:" + bspec(hrng, hrng.choice([0, 5, 2048])), "f:0"]
             yops, sops = [], []
+            first = True
             for o in ops:
-                if o.startswith("u:"):
+                if o.startswith("u:") and j % 4 == 2 and first:
+                    first = False
+                    yops.append("umy:" + o[2:])
+                    sops.append("um:" + o[2:])
+                elif o.startswith("u:"):
                     yops.append("uy:" + o[2:])
                     sops.append("us:" + o[2:] + ":" + "".join(hrng.choice("012") for _ in range(hrng.range(0, 12))))
                 else:
